@@ -18,7 +18,7 @@ func init() {
 			"the file-system loader is constructed only by the exported NewModuleLoader and its methods are reached only through interface assertions on the option-set field (R-C19-loaderreach); the capability fields of the compiler are stored only by the option closures, and (*Query).Run compiles without options (R-C19-fields); " +
 			"every use of a capability field, and every creation of the method values that use one, is dominated by a nil test whose nil edge returns an error or the empty default (R-C19-nilguard); a partially implemented loader yields errors (R-C08-dispatch); the two call sites that compile a custom function pass structurally identical arguments and append opiter iff the iterator flag (R-C19-custom); " +
 			"RunWithContext rejects both variable-count mismatches before any env exists (R-C19-vars).",
-		NotCovered: "behavioural equivalence of a Go callback and a jq definition under backtracking and paths; argument evaluation order of custom functions; what the third-party timefmt package consults for %Z; data flow of capabilities granted deliberately by the embedding program.",
+		NotCovered: "behavioural equivalence of a Go callback and a jq definition under backtracking (under paths the structural half is decided: arguments are evaluated as values, R-C19-argvalues, and positional path bookkeeping is arity-guarded, R-C08-nativearity); argument evaluation order of custom functions; what the third-party timefmt package consults for %Z; data flow of capabilities granted deliberately by the embedding program.",
 	})
 	reg(&Rule{ID: "R-C19-direct", Props: []string{"C19"}, Floor: 8,
 		Doc: "every direct use of an ambient-authority symbol in package gojq lies in the allowed set (module_loader.go, funcNow, funcLocaltime, funcStrflocaltime; debug.go under gojq_debug)",
